@@ -13,6 +13,7 @@ import c13, catalog       # registers the 'c13' model set (abstract sqlite3 + st
 CATS = {}
 common.register_models('abs_v2_one', lambda eng: api_common.install_abstract_v2(eng, rows_mode='one'))
 common.register_models('abs_v2_any', lambda eng: api_common.install_abstract_v2(eng, rows_mode='any'))
+common.register_models('abs_v2_text', lambda eng: api_common.install_abstract_v2(eng, rows_mode='one', sym_text=2))
 try:
     import api_v1
     HAVE_V1 = True
@@ -26,7 +27,7 @@ def main():
     schemas = [0, 6] if TIER == 'quick' else [0, 1, 3, 6]
     for op, name in sorted(api_common.OBSERVERS_V2.items()):
         for sc in schemas:
-            for mdl in ('abs_v2_one', 'abs_v2_any'):
+            for mdl in ('abs_v2_one', 'abs_v2_any', 'abs_v2_text'):
                 jobs.append(dict(harness='h_api_v2.cpp', ll=ll, entry='h_op', params={'op': op, 'schema': sc, 'wide': 0, 'count': 3}, models=[mdl], known=ck.known, must_reach=['call'],
                                  hooks=('c16', 'HOOKS'), replay='none', allow_throw='none', other_property_kinds=['undef', 'oob', 'ubsan', 'fpcast', 'null', 'overflow', 'uaf', 'shift', 'div0', 'unreachable', 'badfree', 'doublefree', 'terminate', 'trap'], eng_opts={'max_paths': 3000}, label=name))
     if HAVE_V1: jobs += api_v1.jobs_c16(ck)
